@@ -15,7 +15,7 @@ ASSUMPTIONS = ["NaN in an offered value is a value or 'missing' according to the
                "integer-array assignment keys address distinct positions (the property's quantifier)"]
 CORRESPONDENCE = "m_getitem_*/m_take/m_concat/m_dropna/m_pickle/m_setitem (ExtArray.v) vs NestedExtensionArray"
 EXTRA_IMPORTS = "FrameRows"
-LAYOUTS = [l for l in gen.LAYOUTS if l != "missing_hidden"] + ["history", "history"]
+LAYOUTS = list(gen.LAYOUTS) + ["history", "history"]
 
 
 def generate(ctx):
